@@ -298,4 +298,22 @@ def kraus_valid(repo: Repo) -> List[Ob]:
     has_cmp = any(call_np(n) in ("allclose", "isclose", "array_equal") for n in walk_no_nested(kc.node))
     (obs.append(ok("KRAUS-VALID", kc, "identity-formula", P, kc.node, "checks sum K^dagger K against the identity")) if good and has_eye and has_cmp else
      obs.append(bad("KRAUS-VALID", kc, "identity-formula", P, kc.node, "kraus_identity_check no longer compares sum_i K_i^dagger K_i with the identity")))
+    # the comparison sees the whole (complex) sum: a projection of it (real part, modulus, diagonal, trace) accepts operator
+    # sets whose sum differs from the identity in the discarded part
+    from ..model import single_defs
+    defs = single_defs(kc.node)
+    LOSSY = {"real", "imag", "abs", "absolute", "diag", "diagonal", "trace", "angle", "linalg.norm"}
+    for k, c in enumerate([n for n in walk_no_nested(kc.node) if isinstance(n, ast.Call) and call_np(n) in ("allclose", "isclose", "array_equal")], 1):
+        lossy = None
+        for a in c.args[:2]:
+            e = defs.get(a.id, a) if isinstance(a, ast.Name) else a
+            for x in [e] + list(ast.walk(e)):
+                if isinstance(x, ast.Call) and (call_np(x) in LOSSY or (isinstance(x.func, ast.Name) and x.func.id == "abs")):
+                    lossy = src(x)[:40]
+                if isinstance(x, ast.Attribute) and x.attr in ("real", "imag") and not isinstance(x.value, ast.Name):
+                    lossy = src(x)[:40]
+                if isinstance(x, ast.Attribute) and x.attr in ("real", "imag") and isinstance(x.value, ast.Name) and x.value.id not in ("jnp", "np"):
+                    lossy = src(x)[:40]
+        (obs.append(bad("KRAUS-VALID", kc, f"identity-compares-whole-sum#{k}", P, c, f"the completeness test compares `{lossy}` – a projection of sum K^dagger K – with the identity: operator sets whose sum deviates in the discarded part are accepted")) if lossy else
+         obs.append(ok("KRAUS-VALID", kc, f"identity-compares-whole-sum#{k}", P, c, "the comparison sees the whole sum")))
     return obs
